@@ -129,7 +129,7 @@ def _absorb(out, res, by_id, seen_reg, pending, chunk, max_paths, on_record):
         r["errors"].append(out["error"])
     for rec in out["records"]:
         r["npaths"] += 1
-        if rec["status"] == "violation":
+        if rec["status"] == "violation" and not _is_known(rec):
             r["nviol"] += 1
         if on_record:
             on_record(jid, rec)
@@ -153,6 +153,24 @@ def _absorb(out, res, by_id, seen_reg, pending, chunk, max_paths, on_record):
                 pending.append((job, pins, lo[len(lo) // 2:], chunk, False))
             else:
                 pending.append((job, pins, lo, chunk, False))
+
+
+_KNOWN = None
+
+
+def _is_known(rec):
+    """Candidates matching an open entry of known_findings.json do not count towards the early-stop budget of a job."""
+    global _KNOWN
+    if _KNOWN is None:
+        import json
+
+        try:
+            with open(os.path.join(os.path.dirname(os.path.dirname(os.path.abspath(__file__))), "known_findings.json")) as f:
+                _KNOWN = [k.get("match", {}) for k in json.load(f).get("findings", []) if k.get("status") == "open" and k.get("match")]
+        except Exception:
+            _KNOWN = []
+    sig = ((rec.get("violation") or {}).get("info") or {}).get("signature") or {}
+    return any(all(sig.get(a) == b for a, b in m.items()) for m in _KNOWN)
 
 
 def _slim(rec):
